@@ -441,7 +441,7 @@ impl Property for C11 {
     }
     fn assumptions(&self) -> Vec<String> {
         vec![
-            "v-model targets and computed v-model arguments are bare identifiers here (the statement exempts them)".into(),
+            "v-model targets are bare identifiers (the statement exempts them); a computed v-model argument is a leaf `ta(k)` whose run of up to three consecutive evaluations (once per generated prop key) counts as one".into(),
             "bare identifiers and literals are not observable (statement: 'anything but a bare identifier or literal')".into(),
         ]
     }
@@ -474,6 +474,7 @@ impl Property for C11 {
         let mut case = sc.case;
         case.extra["compare_traces"] = json!(true);
         case.extra["unordered_leaves"] = json!(sc.unordered_leaves);
+        case.extra["multi_leaves"] = json!(sc.multi_leaves);
         case.extra["traces_only"] = json!(true);
         let ordered = sc.n_exprs.saturating_sub(sc.unordered_leaves.len());
         case.nontrivial = ordered >= 2;
